@@ -619,6 +619,33 @@ func genH265SPS(t *rapid.T, maxSub int) codecref.H265SPS {
 	}
 	s.Width = dim("width", []uint32{176, 352, 640, 704, 1280, 1920, 2560, 3840, 4096, 7680, 8192})
 	s.Height = dim("height", []uint32{144, 288, 480, 576, 720, 1088, 1440, 2160, 2176, 4320, 4352})
+	// conformance window: what every encoder writes for sizes that are not a
+	// multiple of the minimum coding block (1080 = 1088 - 8), in units of
+	// SubWidthC / SubHeightC
+	if rapid.Bool().Draw(t, "confWin") {
+		s.ConfWin = true
+		sw, sh := s.ChromaUnits()
+		maxX, maxY := s.Width/sw-1, s.Height/sh-1 // largest legal left+right / top+bottom
+		var totX, totY uint32
+		switch rapid.IntRange(0, 3).Draw(t, "confClass") {
+		case 0, 1: // less than one minimum coding block at the right / bottom
+			totX = rapid.Uint32Range(0, minCb/sw-1).Draw(t, "confX")
+			totY = rapid.Uint32Range(0, minCb/sh-1).Draw(t, "confY")
+		case 2:
+			totX = rapid.Uint32Range(0, min32(maxX, 64)).Draw(t, "confX")
+			totY = rapid.Uint32Range(0, min32(maxY, 64)).Draw(t, "confY")
+		default:
+			totX = rapid.Uint32Range(0, maxX).Draw(t, "confX")
+			totY = rapid.Uint32Range(0, maxY).Draw(t, "confY")
+		}
+		totX, totY = min32(totX, maxX), min32(totY, maxY)
+		if rapid.IntRange(0, 2).Draw(t, "confSplit") == 0 {
+			s.ConfWinL = rapid.Uint32Range(0, totX).Draw(t, "confL")
+			s.ConfWinT = rapid.Uint32Range(0, totY).Draw(t, "confT")
+		}
+		s.ConfWinR = totX - s.ConfWinL
+		s.ConfWinB = totY - s.ConfWinT
+	}
 	s.BitDepthLumaMinus8 = rapid.OneOf(rapid.SampledFrom([]uint32{0, 2}), rapid.Uint32Range(0, 8)).Draw(t, "bdl")
 	s.BitDepthChromaMinus8 = rapid.OneOf(rapid.SampledFrom([]uint32{0, 2}), rapid.Uint32Range(0, 8)).Draw(t, "bdc")
 	s.Log2MaxPocLsbMinus4 = rapid.Uint32Range(0, 12).Draw(t, "poc")
